@@ -432,9 +432,9 @@ pub async fn sanitize_async_with_config<R: AsyncRead + AsyncSkip>(
         }
         mdat_backward_displacement => {
             let mdat_displacement = match mdat_backward_displacement {
-                Some(mdat_backward_displacement) => {
-                    mdat_backward_displacement.try_into().ok().and_then(i32::checked_neg)
-                }
+                Some(mdat_backward_displacement) => i64::try_from(mdat_backward_displacement)
+                    .ok()
+                    .and_then(|displacement| i32::try_from(-displacement).ok()),
                 None => metadata_len.checked_sub(data.offset).unwrap().try_into().ok(),
             };
             let mdat_displacement: i32 = mdat_displacement
